@@ -7,6 +7,7 @@ from hypothesis import strategies as st
 from .. import build, findings, gen, procs
 from ..core import Discard, Part, Violation, call, is_raised, relerr, require
 from ..observe import EvaluationCap, Trace
+from ..solver import legit_exit_flip
 from ..refmodels import uniquac_ln_gammas
 from .c04 import _uq_consts, _uq_params
 
@@ -129,8 +130,15 @@ def check_upper(case):
                 require(relerr(float(a) * float(b), 1.0) <= 1e-12, "ideal %s selectivity %r is not the inverse of the relabelled one %r", ct, float(a), float(b))
         # solver
         kw = dict(feed_temperature=t, precision=prec, permeate_temperature=perm["T"], permeate_pressure=perm["p"], calculation_type=mdl)
-        j, e1 = _traced(pv, lambda: pv.calculate_partial_fluxes(composition=comp, **kw))
-        j2, e2 = _traced(pv2, lambda: pv2.calculate_partial_fluxes(composition=comp2, **kw))
+        with Trace(pv, cap=60000, keep=True) as tra:
+            j = call(pv.calculate_partial_fluxes, composition=comp, **kw)
+        with Trace(pv2, cap=60000, keep=True) as trb:
+            j2 = call(pv2.calculate_partial_fluxes, composition=comp2, **kw)
+        e1, e2 = list(tra.per_call), list(trb.per_call)
+        if e1 != e2 and not legit_exit_flip(tra.evals, trb.evals, prec, complement=True):
+            raise Violation("the flux iteration stopped after %r evaluations for the original and %r for the relabelled mixture although the "
+                            "step size was not at a rounding tie with the precision %r: the stopping decision depends on the labelling"
+                            % (e1, e2, prec))
         if is_raised(j) != is_raised(j2):
             if e1 == e2:
                 raise Violation("flux calculation %s but the relabelled one %s" % ("raised %r" % j if is_raised(j) else "returned", "raised %r" % j2 if is_raised(j2) else "returned"))
@@ -164,7 +172,7 @@ def check_upper(case):
                     require(relerr(sf * sf2, 1.0) <= 100 * tol + 1e-13 / edge, "curve separation factor %r is not the inverse of the relabelled one %r", sf, sf2)
                 if mdl == "NRTL":  # a curve inverts fluxes with NRTL whatever model produced them
                     se, se2 = float(dc.get_selectivity[0]), float(dc2.get_selectivity[0])
-                    if math.isfinite(se) and se > 0 and math.isfinite(se2) and perm["mode"] != "pressure":
+                    if math.isfinite(se) and se > 0 and math.isfinite(se2):
                         require(relerr(se * se2, 1.0) <= 1000 * tol, "curve selectivity %r is not the inverse of the relabelled one %r", se, se2)
         # processes
         dt = procs.step_length(case, s)
